@@ -261,7 +261,12 @@ def match_packages(
         # with the all-arches candidates
         allarches_kw: list[str] = []
         if allarches and stable and filter_arch:
-            allarches_kw = sort_keywords(suggested_keywords(repo, pkg, stable=True))
+            allarches_kw = [
+                k
+                for k in sort_keywords(suggested_keywords(repo, pkg, stable=True))
+                # an arch dropped from the repo may linger on old versions
+                if k in valid_arches
+            ]
 
         if only_new:
             keywords = [
